@@ -42,6 +42,13 @@ structure TSim where
   recvPending : List (String × String) := []
   /-- ports whose open batch was already refused (further continuation frames are ignored) -/
   batchRefused : List Nat := []
+  /-- the listener returned `None` (it took a `ClientDropped` marker out of ONE of its two queues,
+  which one is decided by `tokio::select!`'s random branch order): from here on the model's count of
+  queued markers is an upper bound only -/
+  cdMaybeGone : Bool := false
+  /-- a request that overflows a listener queue only if the marker is still in it: the real
+  dispatcher may or may not have terminated with a protocol error -/
+  mayProtocol : Bool := false
 
 def TSim.diff (s : TSim) (line : Nat) (what : String) : TSim :=
   { s with replayOk := false, out := if s.out.length < 10 then s.out ++ [s!"DIFF {s.name} line={line} {what}"] else s.out }
@@ -106,6 +113,18 @@ def TSim.onRx (s : TSim) (line : Nat) (bs : List UInt8) : TSim :=
             | _ => s
           { s with ep := e, expectTx := s.expectTx ++ emit }
         | .error err =>
+          -- see `cdMaybeGone`: retry without the marker; if that is accepted both outcomes are legal
+          let retry := match m with
+            | .openPort _ _ _ =>
+              if s.cdMaybeGone && s.ep.clientDroppedQueued > 0 then
+                match handleRx { s.ep with clientDroppedQueued := 0 } m with
+                | .ok (e, emit) => some ({ e with clientDroppedQueued := s.ep.clientDroppedQueued }, emit)
+                | .error _ => none
+              else none
+            | _ => none
+          match retry with
+          | some (e, emit) => { s with ep := e, expectTx := s.expectTx ++ emit, mayProtocol := true }
+          | none =>
           let resource := match m with
             | .openPort _ _ _ => true
             | .clientFinish => true
@@ -160,6 +179,7 @@ def TSim.finish (s : TSim) : TSim :=
     if r.startsWith (errText err) then s
     else s.diff line s!"model terminates with {errText err} on {what}, real run result '{r}'"
   | none, some r =>
+    if r.startsWith "protocol" && s.mayProtocol then s else
     if r.startsWith "protocol" || r.startsWith "reset" then s.diff s.events s!"real dispatcher terminated with '{r}', the model keeps operating"
     else s
   | none, none => s
@@ -274,6 +294,7 @@ def stepLine (a : TAcc) (n : Nat) (line : String) : IO TAcc := do
       if p != "-" then return { a with sim := s.fail n s!"API calls still pending after the dispatcher terminated: {p}" }
       else return { a with sim := s }
     | _, _ => return { a with sim := s }
+  | ["ret", _, "none"] => return { a with sim := { s with cdMaybeGone := true } }
   | "panic" :: rest => return { a with sim := s.fail n ("panic: " ++ " ".intercalate rest) }
   | _ => return { a with sim := s }
 
